@@ -572,7 +572,7 @@ class Check(PropertyCheck):
                   "DOTALL exactly ~b ~bq ~bs, bytes/str pattern - pinned against tables regenerated from the classes), doc_eval and "
                   "parse_render_documented (a documented rendering is accepted and its verdict is the table's reading of the tree), "
                   "only_http / only_gating (the @only decorators), both_sides_split (~b = ~bq or ~bs, ~h = ~hq or ~hs, ~t = ~tq or "
-                  "~ts on every flow), unary_table (~q = not ~s on HTTP/DNS, ~replay = ~replayq or ~replays, ~all); the fuel of the "
+                  "~ts on every flow), body_ops_http (on HTTP flows the body operators are the `bodyLeaf` over request/response), unary_table (~q = not ~s on HTTP/DNS, ~replay = ~replayq or ~replays, ~all); the fuel of the "
                   "parser model is immaterial: parse_fuel_independent / parseStruct_any_fuel (any fuel larger than the text gives "
                   "the same parse), parse_consumes (every parser returns a suffix no longer than its input). "
                   "The model transcribes the pyparsing grammar of flowfilter._make (MatchFirst order of the operator tables, "
@@ -621,7 +621,9 @@ class Check(PropertyCheck):
     time_budget = {"quick": 12, "thorough": 540}
     fingerprints = ["mitmproxy.flowfilter:_make", "mitmproxy.flowfilter:parse", "mitmproxy.flowfilter:FAnd", "mitmproxy.flowfilter:FOr",
                     "mitmproxy.flowfilter:FNot", "mitmproxy.flowfilter:_Rex.__init__", "mitmproxy.flowfilter:_Int.__init__",
-                    "mitmproxy.flowfilter:_Action.make", "mitmproxy.flowfilter:FUrl.make"]
+                    "mitmproxy.flowfilter:_Action.make", "mitmproxy.flowfilter:FUrl.make", "mitmproxy.flowfilter:only",
+                    "mitmproxy.flowfilter:_check_content_type", "mitmproxy.http:Message.get_content"] + \
+                   ["mitmproxy.flowfilter:%s.__call__" % c.__name__ for c in list(ff.filter_unary) + list(ff.filter_rex) + list(ff.filter_int)]
     trusted_base = ["pyparsing 3.3.2 (Literal/WordEnd/CharsNotIn/QuotedString/Word/MatchFirst/infix_notation/OneOrMore) as the primitives the model transcribes",
                     "CPython re as the regex engine (parameter of the model)"]
     parallel = False
@@ -762,6 +764,12 @@ class Check(PropertyCheck):
         only in the decoded bytes, in neither - evaluated on the whole pool (all Content-Encoding situations)"""
         args = ["needle-plain", "needle-decoded", "needle", "\\x1f\\x8b", "hello", "nomatch", "^needle-plain hello 123$"]
         if tier == "quick": args = rng.sample(args, 4)
+        # regexes that match the empty string: a present-but-empty body (b"") is searched, an absent one (None) is not
+        for code in ("b", "bq", "bs"):
+            for a in ("^$", ".*", "", "x*"):
+                for t in (["R", code, a], ["N", ["R", code, a]]):
+                    c = self._case(t, rng, groups=(0, 0), p_red=0.0)
+                    if c: yield c
         for code in ("b", "bq", "bs"):
             for a in args:
                 leaf = ["R", code, a]
